@@ -8,8 +8,8 @@
           "optimized": exported optimized plan (Driver/PlanJson), "bound": exported bound plan, "schemas": {table:[columns]},
           "runs": {"local", "gathered", "full"}}
 
-  K (model = impl): `IQE.Engine.Gather.gatherPlan today schemas optimized` (the model of `plan_gather` / `collect_scans`
-    with the deviation switches of the code as it is: `skipSubqueryPlans`) equals the implementation's gather plan:
+  K (model = impl): `gatherPlans today schemas (optimized :: cte_optimized)` (the model of `plan_gather` / `collect_scans`
+    with the deviation switches of the code as it is — none since C45-F1 was fixed) equals the implementation's gather plan:
     same tables, same column lists in schema order.
   O (the property, on the IMPLEMENTATION's output): the statement re-run over the gathered tables (`runs.gathered`) binds and
     gives the single-node answer (`runs.local`) up to `Spec.sameAnswer`; no panic.
@@ -26,8 +26,16 @@ open Lean IQE IQE.Spec Driver.SqlJson Driver.SQL IQE.Engine.PlanWf IQE.Engine.Ga
 
 namespace Driver.C45
 
-/-- the switches of the code as it is on the unchanged tree -/
-def today : Dev := { skipSubqueryPlans := true }
+/-- the switches of the code as it is: none since /repo 1c600c2 (C45-F1 fixed: the walk enters subquery expression plans);
+    before that commit `{ skipSubqueryPlans := true }` -/
+def today : Dev := {}
+
+/-- `plan_gather` since /repo 6d3344d: the optimized plan of the statement, then the optimized plan of every top-level CTE
+    definition (each behind the definitions before it), into ONE requirement map -/
+def gatherPlans (dev : Dev) (full : String → Option (List String)) (ps : List Plan) : Except String (List (String × Option (List String))) := do
+  let req ← collectPs dev full ps []
+  if req.isEmpty then .error "no base table"
+  else pure ((sortByName req).map fun tc => (tc.1, normCols full tc.1 tc.2))
 
 def schemasOf (i : Json) : String → Option (List String) := fun t =>
   match (getObj i "schemas").toOption.bind (fun s => (s.getObjValAs? (Array String) t).toOption) with
@@ -97,8 +105,11 @@ def handler : Driver.Handler := fun cj i => do
   let full := schemasOf i
   let impl ← implGather i
   let optimized := match PlanJson.planOrErr ((getObj i "optimized").toOption.getD Json.null) with | .ok (.ok p) => some p | _ => none
-  let modelToday : Option (Except String GPlan) := optimized.map (gatherPlan today full)
-  let modelIntended : Option (Except String GPlan) := optimized.map (gatherPlan {} full)
+  let ctePlans : List Plan := match (getObj i "cte_optimized").toOption.bind (fun j => j.getArr?.toOption) with
+    | some a => a.toList.filterMap fun pj => match PlanJson.planOrErr pj with | .ok (.ok p) => some p | _ => none
+    | none => []
+  let modelToday : Option (Except String GPlan) := optimized.map fun p => gatherPlans today full (p :: ctePlans)
+  let modelIntended : Option (Except String GPlan) := optimized.map fun p => gatherPlans {} full (p :: ctePlans)
   let kOk : Bool := match modelToday, impl with
     | some (.ok m), some g => m == g
     | some (.error _), none => true
